@@ -26,7 +26,10 @@ META = dict(
          "over two to four in-process redis servers with 5-9 weight vectors: the server observed to hold a key "
          "(miniredis inspection) has positive weight and stays the same across Set, Del+Set, batch Del+Set. The same "
          "contract is also validated on rings built with NewCustomConsistentHash and a caller-supplied hash function "
-         "(share statistic not applied there). BEYOND THE STATEMENT (which does not quantify over concurrency): Get "
+         "(share statistic not applied there). Class-share statistic: on rings with 100/150/250 (thorough also 199/330) "
+         "virtual nodes per full node, ten nodes each added by Add, AddWithWeight(100), AddWithWeight(50), 40 000-100 000 "
+         "fixed keys, every class share within +-15 % of the weight-proportional share (deterministic: names and keys are "
+         "fixed; weights above 100 left out, the statement is silent about them). BEYOND THE STATEMENT (which does not quantify over concurrency): Get "
          "concurrent with Add*/Remove runs under -race; only a data-race report or a panic is reported "
          "(key C13:data-race), never a contract violation. Bounds: 3-4 nodes, weights {0,1,50,100}, replicas {0,50,100,200}, base 100 and 200.",
     technique="TLA+ contract spec + TLC-generated histories + TLC trace validation of the real ring's lookups",
@@ -294,6 +297,41 @@ def race(ctx):
     ctx.notes["race_run"] = out[out.find("C13RACE"):].split("\n")[0]
 
 
+# ------------------------------------------------------------------------------- class shares (statistical clause)
+
+SHARE_TOL = 0.15
+
+
+def class_shares(ctx):
+    """'Each node's share of a large key population is roughly proportional to its weight', aggregated over
+    classes of ten nodes (Add = weight 100, AddWithWeight 100, AddWithWeight 50) on rings whose replica setting
+    is and is not a multiple of 100.  Node names and keys are fixed: the measured shares are a deterministic
+    function of the code, so the +-15 % margin (5 sigma of the ring's own dispersion) cannot flake.
+    Weights above 100 are left out: the statement is silent about them."""
+    want = dict(add=100.0, w100=100.0, w50=50.0)
+    tot = sum(want.values())
+    measured = {}
+    for base in ([100, 150, 250] if ctx.quick else [100, 150, 199, 250, 330]):
+        rc, out = ctx.go_test(PKG, OVERLAY, "^TestVerifC13Shares$", name="shares-%d" % base, timeout=300, extra=["-v"],
+                              env=dict(VERIF_BASE=base, VERIF_POP=(40000 if ctx.quick else 100000)))
+        line = [l for l in out.splitlines() if l.startswith("C13SHARE ")]
+        if rc != 0 or not line:
+            raise core.Infra("share driver failed rc=%s\n%s" % (rc, out[-2000:]))
+        m = json.loads(line[0][len("C13SHARE "):])
+        rel = {}
+        for k, w in want.items():
+            rel[k] = round((m[k] / m["pop"]) / (w / tot), 4)
+        measured[str(base)] = dict(counts={k: m[k] for k in ("add", "w100", "w50", "none")}, relative_to_weight_share=rel)
+        bad = {k: v for k, v in rel.items() if abs(v - 1) > SHARE_TOL}
+        if bad or m["none"]:
+            ctx.disagree("C13:class-share",
+                         "ring with %d virtual nodes per full node, ten nodes each added by Add / AddWithWeight(100) / "
+                         "AddWithWeight(50), %d keys: class shares relative to the weight-proportional share %s "
+                         "(counts %s); outside +-%d%%: %s" % (base, m["pop"], rel, measured[str(base)]["counts"],
+                                                            int(SHARE_TOL * 100), bad), case=None, source="statistic")
+    ctx.notes["class_shares"] = measured
+
+
 # ------------------------------------------------------------------------------- run
 
 def run(ctx):
@@ -329,6 +367,7 @@ def run(ctx):
         if not hashfn:
             shares(ctx, hists, base, acc)
     cluster(ctx)
+    class_shares(ctx)
     race(ctx)
     ctx.notes["share_ratio_min_max"] = [round(acc["min"], 3), round(acc["max"], 3)]
     ctx.notes["share_memberships_measured"] = len(acc["seen"])
